@@ -125,6 +125,44 @@ Proof.
   - pose proof (IH id k ND'). lia.
 Qed.
 
+Lemma lk_w_wep_forced : forall s d id cs, nrb s -> lk_w s d -> lk_w (flush (on_wep_forced s id cs)) (dstep d (OpWep id cs)).
+Proof.
+  intros s d id cs NRB (L1 & L2 & L3 & L4).
+  assert (FL : forall x, @keepf _ _ ri_wep s_weps x (flush x)) by (intros x; apply keepf_flush; auto).
+  rewrite on_wep_forced_eq. cbv zeta.
+  set (old := match aget N.eqb (s_weps s) id with Some l => l | None => [] end).
+  set (s1 := fold_left wep_add cs s).
+  assert (NRB1 : nrb s1).
+  { unfold s1. clear - NRB. revert s NRB. induction cs as [|x l IH]; intros s NRB; [exact NRB|]. cbn [fold_left]. apply IH. now apply nrb_wep_add. }
+  assert (OLD : forall k, (cocc k old <= cocc k (flat_map snd (s_weps s)))%nat).
+  { intros k. unfold old. destruct (aget N.eqb (s_weps s) id) as [l|] eqn:A; [exact (cocc_in_weps _ _ _ k A)|unfold cocc; simpl; lia]. }
+  assert (PRE : forall k, (cocc k old <= ri_wep (tget (s_trie s1) k))%nat).
+  { intros k. unfold s1. rewrite (proj1 (fold_wep_add_tget cs s k)), L4. pose proof (OLD k). lia. }
+  destruct (fold_wep_rem old s1 PRE NRB1) as [_ T2].
+  set (s2 := fold_left wep_rem old s1) in *.
+  assert (WEP2 : forall k, ri_wep (tget (s_trie s2) k) = (cocc k (flat_map snd (s_weps s)) + cocc k cs - cocc k old)%nat).
+  { intros k. rewrite (proj1 (T2 k)). unfold s1. now rewrite (proj1 (fold_wep_add_tget cs s k)), L4. }
+  assert (WE : s_weps s2 = s_weps s).
+  { unfold s2, s1. rewrite (proj2 (fold_wep_misc wep_rem (or_intror eq_refl) old _)). apply (proj2 (fold_wep_misc wep_add (or_introl eq_refl) cs s)). }
+  assert (G : forall m', (forall k, (cocc k (flat_map snd m') + cocc k old = cocc k (flat_map snd (s_weps s)) + cocc k cs)%nat) ->
+              m' = d_weps (dstep d (OpWep id cs)) -> NoDup (map fst m') -> (forall i, aget N.eqb m' i <> Some []) ->
+              lk_w (flush (set_weps s2 m')) (dstep d (OpWep id cs))).
+  { intros m' HC HD HN HE. destruct (FL (set_weps s2 m')) as [F1 F2]. unfold lk_w. rewrite F2. cbn [s_weps set_weps].
+    split; [exact HD|]. split; [exact HN|]. split; [exact HE|]. intros k. rewrite F1. cbn [s_trie set_weps]. rewrite WEP2.
+    pose proof (HC k). pose proof (OLD k). lia. }
+  destruct cs as [|c0 cs']; rewrite WE.
+  * apply G.
+    -- intros k. pose proof (cocc_aremove_eq (s_weps s) id k L2) as X. fold old in X. unfold cocc at 4. simpl. lia.
+    -- cbn [dstep d_weps]. unfold upd. now rewrite L1.
+    -- now apply nodup_aremove.
+    -- intros i. rewrite agetN_aremove. destruct (N.eqb id i); [discriminate|apply L3].
+  * apply G.
+    -- intros k. pose proof (cocc_aset (s_weps s) id (c0 :: cs') k) as X. fold old in X. exact X.
+    -- cbn [dstep d_weps]. unfold upd. now rewrite L1.
+    -- now apply nodup_aset.
+    -- intros i. rewrite agetN_aset. destruct (N.eqb id i); [discriminate|apply L3].
+Qed.
+
 Lemma lk_w_step : forall s d o, nrb s -> lk_w s d -> lk_w (apply_op true s o) (dstep d o).
 Proof.
   intros s d o NRB (L1 & L2 & L3 & L4). unfold apply_op.
@@ -136,7 +174,7 @@ Proof.
   - apply K; [|reflexivity]. apply keepf_on_pool; auto.
   - apply K; [|reflexivity]. apply keepf_on_block; auto.
   - apply K; [|reflexivity]. apply keepf_on_node; auto.
-  - rewrite on_wep_eq. cbv zeta.
+  - unfold on_wep, wep_unchanged.
     set (old := match aget N.eqb (s_weps s) id with Some l => l | None => [] end).
     destruct (list_eqb prefix_eqb old cs) eqn:LE.
     + apply (list_eqb_eq prefix_eqb) in LE; [|intros a b X; now apply prefix_eqb_eq].
@@ -144,34 +182,32 @@ Proof.
       destruct cs as [|c0 cs'].
       * destruct (aget N.eqb (s_weps s) id) as [l|] eqn:A; [subst l; exfalso; exact (L3 id A)|]. now apply aremove_absent.
       * destruct (aget N.eqb (s_weps s) id) as [l|] eqn:A; [|discriminate]. subst l. now apply aset_same.
-    + set (s1 := fold_left wep_add cs s).
-      assert (NRB1 : nrb s1).
-      { unfold s1. clear - NRB. revert s NRB. induction cs as [|x l IH]; intros s NRB; [exact NRB|]. cbn [fold_left]. apply IH. now apply nrb_wep_add. }
-      assert (OLD : forall k, (cocc k old <= cocc k (flat_map snd (s_weps s)))%nat).
-      { intros k. unfold old. destruct (aget N.eqb (s_weps s) id) as [l|] eqn:A; [exact (cocc_in_weps _ _ _ k A)|unfold cocc; simpl; lia]. }
-      assert (PRE : forall k, (cocc k old <= ri_wep (tget (s_trie s1) k))%nat).
-      { intros k. unfold s1. rewrite (proj1 (fold_wep_add_tget cs s k)), L4. pose proof (OLD k). lia. }
-      destruct (fold_wep_rem old s1 PRE NRB1) as [_ T2].
-      set (s2 := fold_left wep_rem old s1) in *.
-      assert (WEP2 : forall k, ri_wep (tget (s_trie s2) k) = (cocc k (flat_map snd (s_weps s)) + cocc k cs - cocc k old)%nat).
-      { intros k. rewrite (proj1 (T2 k)). unfold s1. now rewrite (proj1 (fold_wep_add_tget cs s k)), L4. }
-      assert (WE : s_weps s2 = s_weps s).
-      { unfold s2, s1. rewrite (proj2 (fold_wep_misc wep_rem (or_intror eq_refl) old _)). apply (proj2 (fold_wep_misc wep_add (or_introl eq_refl) cs s)). }
-      assert (G : forall m', (forall k, (cocc k (flat_map snd m') + cocc k old = cocc k (flat_map snd (s_weps s)) + cocc k cs)%nat) ->
-                  m' = d_weps (dstep d (OpWep id cs)) -> NoDup (map fst m') -> (forall i, aget N.eqb m' i <> Some []) ->
-                  lk_w (flush (set_weps s2 m')) (dstep d (OpWep id cs))).
-      { intros m' HC HD HN HE. destruct (FL (set_weps s2 m')) as [F1 F2]. unfold lk_w. rewrite F2. cbn [s_weps set_weps].
-        split; [exact HD|]. split; [exact HN|]. split; [exact HE|]. intros k. rewrite F1. cbn [s_trie set_weps]. rewrite WEP2.
-        pose proof (HC k). pose proof (OLD k). lia. }
-      destruct cs as [|c0 cs']; rewrite WE.
-      * apply G.
-        -- intros k. pose proof (cocc_aremove_eq (s_weps s) id k L2) as X. fold old in X. unfold cocc at 4. simpl. lia.
-        -- cbn [dstep d_weps]. unfold upd. now rewrite L1.
-        -- now apply nodup_aremove.
-        -- intros i. rewrite agetN_aremove. destruct (N.eqb id i); [discriminate|apply L3].
-      * apply G.
-        -- intros k. pose proof (cocc_aset (s_weps s) id (c0 :: cs') k) as X. fold old in X. exact X.
-        -- cbn [dstep d_weps]. unfold upd. now rewrite L1.
-        -- now apply nodup_aset.
-        -- intros i. rewrite agetN_aset. destruct (N.eqb id i); [discriminate|apply L3].
+    + apply lk_w_wep_forced; [exact NRB|]. repeat split; assumption.
+Qed.
+
+Lemma lk_p_fstep : forall s d x, lk_p s d -> lk_p (apply_fop true s x) (dstep d (match x with FOp _ o => o end)).
+Proof.
+  intros s d [force o] L. destruct force; [|now apply lk_p_step].
+  destruct o as [c v|c v|n v|id cs]; cbn [apply_fop]; try (now apply lk_p_step); destruct L as [L1 L2];
+    assert (FL : forall x, @keepf _ _ ri_pool s_pools x (flush x)) by (intros x; apply keepf_flush; auto).
+  - assert (K : @keepf _ _ ri_pool s_pools s (on_node_forced true s n v)) by (apply keepf_on_node_forced; auto).
+    destruct K as [K1 K2]. destruct (FL (on_node_forced true s n v)) as [F1 F2]. split.
+    + intros c. rewrite F2, K2. apply L1.
+    + intros k. rewrite F1, K1. apply L2.
+  - assert (K : @keepf _ _ ri_pool s_pools s (on_wep_forced s id cs)) by (apply keepf_on_wep_forced; auto).
+    destruct K as [K1 K2]. destruct (FL (on_wep_forced s id cs)) as [F1 F2]. split.
+    + intros c. rewrite F2, K2. apply L1.
+    + intros k. rewrite F1, K1. apply L2.
+Qed.
+
+Lemma lk_w_fstep : forall s d x, nrb s -> lk_w s d -> lk_w (apply_fop true s x) (dstep d (match x with FOp _ o => o end)).
+Proof.
+  intros s d [force o] NRB L. destruct force; [|now apply lk_w_step].
+  destruct o as [c v|c v|n v|id cs]; cbn [apply_fop]; try (now apply lk_w_step).
+  - destruct L as (L1 & L2 & L3 & L4).
+    assert (FL : forall x, @keepf _ _ ri_wep s_weps x (flush x)) by (intros x; apply keepf_flush; auto).
+    assert (K : @keepf _ _ ri_wep s_weps s (on_node_forced true s n v)) by (apply keepf_on_node_forced; auto).
+    destruct K as [K1 K2]. destruct (FL (on_node_forced true s n v)) as [F1 F2]. unfold lk_w. rewrite F2, K2. cbn [dstep d_weps].
+    split; [exact L1|]. split; [exact L2|]. split; [exact L3|]. intros k. rewrite F1, K1. apply L4.
+  - now apply lk_w_wep_forced.
 Qed.
